@@ -152,6 +152,7 @@ pub fn state_key(sys: &System, parts: &KeyParts, monitor_hash: u64) -> u128 {
                 c.next.hash(h);
                 c.pending.is_some().hash(h);
                 c.streaming.hash(h);
+                c.closed.hash(h);
                 c.responses.hash(h);
                 c.events_seen.hash(h);
             }
